@@ -4,7 +4,8 @@ import ms_cases, msref
 
 RULE = ("every operation × status replies of every shape RFC 5804 allows (OK / NO / BYE, with or without response code, hierarchical codes, "
         "codes with a quoted parameter, with or without text, text as quoted string with escapes or as literal, OK (WARNINGS)); expected "
-        "result, errcode and errmsg are computed from the abstract reply, not from its bytes; plus NO / BYE at each step of connect and "
+        "result, errcode and errmsg are computed from the abstract reply, not from its bytes; each reply is delivered whole, with every CRLF "
+        "split between CR and LF, and byte by byte; plus NO / BYE at each step of connect and "
         "of the emulated rename; every exchange is also replayed on the Lean model; non-trivial = reply with a code or a text")
 
 
@@ -56,6 +57,19 @@ def connect_cases():
     ]
 
 
+def crlf_cuts(reply):
+    """recv sizes that end every segment right after a CR: each CRLF of the reply is split between CR and LF"""
+    out, prev, i = [], 0, 0
+    while True:
+        i = reply.find(b"\r\n", i)
+        if i < 0:
+            break
+        out.append(i + 1 - prev)
+        prev = i + 1
+        i += 2
+    return out + [max(len(reply) - prev, 1)]
+
+
 def run(ctx):
     r = rng("c09")
     cases = ms_cases.cases(r, 0 if ctx.tier == "thorough" else 14)
@@ -64,19 +78,21 @@ def run(ctx):
     for op, args, reply, exp in cases:
         if op == "capability":
             continue
-        outs, reqs = ms_cases.run_case(op, args, reply, [])
-        lines += reqs
-        expect += outs
-        evals += 1
-        if exp.get("code") or exp.get("text"):
-            nontriv += 1
-        bad = expect_of(op, exp, outs[2]) if len(outs) > 2 else "operation did not run: %r" % outs
-        if bad is None and exp["status"] != "BYE":
-            # the exchange must leave the session usable: sentinels succeed
-            if len(outs) < 5 or "res=b1" not in outs[3]:
-                bad = "sentinel after the reply failed (reply not consumed exactly): %r" % (outs[3:],)
-        if bad:
-            viol.append({"op": op, "args": repr(args), "reply_hex": reply.hex(), "reply": reply.decode("latin-1"), "what": bad})
+        # the reply delivered whole, with every CRLF split between CR and LF, and byte by byte: the status decides, not the delivery
+        for how, sched in (("whole", []), ("cut between CR and LF", crlf_cuts(reply)), ("byte by byte", [1] * len(reply))):
+            outs, reqs = ms_cases.run_case(op, args, reply, sched)
+            lines += reqs
+            expect += outs
+            evals += 1
+            if exp.get("code") or exp.get("text"):
+                nontriv += 1
+            bad = expect_of(op, exp, outs[2]) if len(outs) > 2 else "operation did not run: %r" % outs
+            if bad is None and exp["status"] != "BYE":
+                # the exchange must leave the session usable: sentinels succeed
+                if len(outs) < 5 or "res=b1" not in outs[3]:
+                    bad = "sentinel after the reply failed (reply not consumed exactly): %r" % (outs[3:],)
+            if bad:
+                viol.append({"op": op, "args": repr(args), "reply_hex": reply.hex(), "reply": reply.decode("latin-1"), "delivery": how, "what": bad + (" [reply delivered %s]" % how)})
     # two failing (or succeeding) commands in a row on ONE client: the second reply alone decides errcode / errmsg
     pool = [c for c in cases if c[0] in ("havespace", "deletescript", "setactive", "putscript") and c[3]["status"] in ("NO", "OK")]
     for _ in range(120 if ctx.tier == "quick" else 1500):
